@@ -125,10 +125,18 @@ def check_strip(cfg):
     without, lay2, _ = ref_file(dict(cfg, tif=None))
     fin, fout = io.BytesIO(with_tif), io.BytesIO()
     try:
+        # asked first whether the file has markers (as the tool does), then stripped through the same file object - twice
+        if not DeTif.has_tif_file(fin):
+            return [({'kind': 'has_tif_false'}, 'has_tif_file() is False for a file written with TIF markers')]
         n, nbytes = DeTif.strip_tif(fin, fout)
+        fout2 = io.BytesIO()
+        n2, nbytes2 = DeTif.strip_tif(fin, fout2)
     except Exception as err:  # noqa
         return [({'kind': 'strip_tif_raises', 'exc': type(err).__name__}, '%s: %s' % (type(err).__name__, err))]
     bad = []
+    if (n2, nbytes2, fout2.getvalue()) != (n, nbytes, fout.getvalue()):
+        bad.append(({'kind': 'strip_tif_second_time_differs'}, 'strip_tif through the same input object a second time: (%d markers, %d bytes), the first time (%d, %d)'
+                    % (n2, nbytes2, n, nbytes)))
     if fout.getvalue() != without:
         bad.append(({'kind': 'strip_tif_bytes'}, 'strip_tif output differs from the file written without TIF (%d vs %d bytes)'
                     % (len(fout.getvalue()), len(without))))
@@ -321,6 +329,8 @@ def gen_writer_cfgs(tier):
             lists += [[a, b, c] for a in lens[:4] for b in lens[-3:] for c in lens[1:3]]
             if maxlen == 65535:
                 lists.append([70000, 2])
+            if tr[0] and maxlen == 4 + tlen(tr) + 1:
+                lists.append([65540, 3])          # more than 65536 physical records: the 16 bit record number in the trailer wraps
             for tif in (None, 'normal'):
                 for lengths in lists:
                     yield {'trailer': list(tr), 'maxlen': maxlen, 'tif': tif, 'lengths': lengths}
